@@ -47,9 +47,6 @@ func (c *Client) Subscribe(ctx context.Context, params *SubscriptionParameters, 
 
 	stats.Subscription().Add("Count", 1)
 
-	// start the publish loop if it isn't already running
-	c.resumech <- struct{}{}
-
 	sub := &Subscription{
 		SubscriptionID:            res.SubscriptionID,
 		RevisedPublishingInterval: time.Duration(res.RevisedPublishingInterval) * time.Millisecond,
@@ -73,6 +70,11 @@ func (c *Client) Subscribe(ctx context.Context, params *SubscriptionParameters, 
 
 	c.subs[sub.SubscriptionID] = sub
 	c.updatePublishTimeout_NeedsSubMuxLock()
+
+	// start the publish loop if it isn't already running. This is done
+	// while holding the lock so that a concurrent ForgetSubscription
+	// cannot pause the loop for a subscription it did not see.
+	c.resumeSubscriptions(ctx)
 	return sub, nil
 }
 
@@ -347,22 +349,38 @@ func (c *Client) notifySubscription(ctx context.Context, sub *Subscription, noti
 	}
 }
 
-// pauseSubscriptions suspends the publish loop by signalling the pausech.
+// pauseSubscriptions suspends the publish loop.
 // It has no effect if the publish loop is already paused.
 func (c *Client) pauseSubscriptions(ctx context.Context) {
+	c.setPublishLoopPaused(true)
+}
+
+// resumeSubscriptions restarts the publish loop.
+// It has no effect if the publish loop is not paused.
+func (c *Client) resumeSubscriptions(ctx context.Context) {
+	c.setPublishLoopPaused(false)
+}
+
+// setPublishLoopPaused records the requested state of the publish loop
+// and wakes it up. It never blocks, so it is safe to call while holding
+// subMux and when the publish loop is not running.
+func (c *Client) setPublishLoopPaused(paused bool) {
+	c.pubMux.Lock()
+	c.pubPaused = paused
+	c.pubGen++
+	c.pubMux.Unlock()
+
 	select {
-	case <-ctx.Done():
-	case c.pausech <- struct{}{}:
+	case c.pubWake <- struct{}{}:
+	default:
 	}
 }
 
-// resumeSubscriptions restarts the publish loop by signalling the resumech.
-// It has no effect if the publish loop is not paused.
-func (c *Client) resumeSubscriptions(ctx context.Context) {
-	select {
-	case <-ctx.Done():
-	case c.resumech <- struct{}{}:
-	}
+// publishLoopState returns the requested state of the publish loop.
+func (c *Client) publishLoopState() (paused bool, gen uint64) {
+	c.pubMux.Lock()
+	defer c.pubMux.Unlock()
+	return c.pubPaused, c.pubGen
 }
 
 // monitorSubscriptions sends publish requests and handles publish responses
@@ -371,44 +389,40 @@ func (c *Client) monitorSubscriptions(ctx context.Context) {
 	dlog := debug.NewPrefixLogger("sub: ")
 	defer dlog.Print("done")
 
-publish:
 	for {
-		select {
-		case <-ctx.Done():
+		if ctx.Err() != nil {
 			dlog.Println("ctx.Done()")
 			return
+		}
 
-		case <-c.resumech:
-			dlog.Print("resume")
-			// ignore since not paused
-
-		case <-c.pausech:
+		paused, gen := c.publishLoopState()
+		if paused {
 			dlog.Print("pause")
-			for {
-				select {
-				case <-ctx.Done():
-					dlog.Print("pause: ctx.Done()")
-					return
-
-				case <-c.resumech:
-					dlog.Print("pause: resume")
-					continue publish
-
-				case <-c.pausech:
-					dlog.Print("pause: pause")
-					// ignore since already paused
-				}
+			select {
+			case <-ctx.Done():
+				dlog.Print("pause: ctx.Done()")
+				return
+			case <-c.pubWake:
 			}
+			continue
+		}
 
-		default:
-			// send publish request and handle response
-			//
-			// publish() blocks until a PublishResponse
-			// is received or the context is cancelled.
-			if err := c.publish(ctx); err != nil {
-				dlog.Print("error: ", err.Error())
-				c.pauseSubscriptions(ctx)
+		// send publish request and handle response
+		//
+		// publish() blocks until a PublishResponse
+		// is received or the context is cancelled.
+		if err := c.publish(ctx); err != nil {
+			dlog.Print("error: ", err.Error())
+
+			// pause unless the loop has been paused or resumed
+			// while the request was outstanding: then the error
+			// belongs to the previous state.
+			c.pubMux.Lock()
+			if c.pubGen == gen {
+				c.pubPaused = true
+				c.pubGen++
 			}
+			c.pubMux.Unlock()
 		}
 	}
 }
